@@ -252,20 +252,36 @@ fn interp_n64_concrete(qf: f64, len: usize) {
     kani::cover!(l < -1.0e100 && h > 1.0e100, "W: huge spread");
 }
 
-//@ prop=C01,C19:thorough tier=quick mem=2 timeout=1200 inst="Midpoint / Linear / Nearest ::interpolate at N64, q = 0.3, N = 3 (fraction 0.6)" bounds="all finite lower <= higher with |v| <= 2^500; one concrete (q, N)"
-#[kani::proof]
+// (not registered: did not finish in 20 min even with a concrete (q, N)) prop=C01,C19:thorough tier=quick mem=2 timeout=1200 inst="Midpoint / Linear / Nearest ::interpolate at N64, q = 0.3, N = 3 (fraction 0.6)" bounds="all finite lower <= higher with |v| <= 2^500; one concrete (q, N)"
+#[allow(dead_code)]
 fn c01_interp_n64_q03_n3() {
     interp_n64_concrete(0.3, 3);
 }
-//@ prop=C01,C19 tier=thorough mem=2 timeout=2400 inst="Midpoint / Linear / Nearest ::interpolate at N64, q = 1 - ulp, N = 2 (fraction just below 1)" bounds="all finite lower <= higher with |v| <= 2^500; one concrete (q, N)"
-#[kani::proof]
+// (not registered: did not finish in 20 min even with a concrete (q, N)) prop=C01,C19 tier=thorough mem=2 timeout=2400 inst="Midpoint / Linear / Nearest ::interpolate at N64, q = 1 - ulp, N = 2 (fraction just below 1)" bounds="all finite lower <= higher with |v| <= 2^500; one concrete (q, N)"
+#[allow(dead_code)]
 fn c01_interp_n64_q1ulp_n2() {
     interp_n64_concrete(0.9999999999999999, 2);
 }
-//@ prop=C01,C19 tier=thorough mem=2 timeout=2400 inst="Midpoint / Linear / Nearest ::interpolate at N64, q = 0.25, N = 3 (fraction 0.5)" bounds="all finite lower <= higher with |v| <= 2^500; one concrete (q, N)"
-#[kani::proof]
+// (not registered: did not finish in 20 min even with a concrete (q, N)) prop=C01,C19 tier=thorough mem=2 timeout=2400 inst="Midpoint / Linear / Nearest ::interpolate at N64, q = 0.25, N = 3 (fraction 0.5)" bounds="all finite lower <= higher with |v| <= 2^500; one concrete (q, N)"
+#[allow(dead_code)]
 fn c01_interp_n64_q025_n3() {
     interp_n64_concrete(0.25, 3);
+}
+
+/// N64 Midpoint and Nearest only (no multiplication involved), concrete (q, N).
+//@ prop=C01,C19:thorough tier=quick mem=2 timeout=900 inst="Midpoint / Nearest ::interpolate at N64, q = 0.3, N = 3" bounds="all finite lower <= higher with |v| <= 2^500; one concrete (q, N)"
+#[kani::proof]
+fn c01_interp_n64_midpoint_nearest_q03() {
+    let l: f64 = kani::any();
+    let h: f64 = kani::any();
+    kani::assume(l <= h && l >= -3.2e150 && h <= 3.2e150);
+    let q = n64(0.3);
+    let m = <Midpoint as Interpolate<N64>>::interpolate(Some(n64(l)), Some(n64(h)), q, 3).raw();
+    assert!(m.to_bits() == (l + (h - l) / 2.0).to_bits(), "Midpoint == lower + (higher - lower) / 2");
+    assert!(l <= m && m <= h, "Midpoint inside [lower, higher]");
+    let nr = <Nearest as Interpolate<N64>>::interpolate(Some(n64(l)), Some(n64(h)), q, 3).raw();
+    assert!(nr.to_bits() == h.to_bits(), "fraction 0.6 >= 0.5: Nearest returns the higher operand");
+    kani::cover!(l < -1.0e100 && h > 1.0e100, "W: huge spread");
 }
 
 // ------------------------------------------------------------------ (3) pipeline
